@@ -45,32 +45,64 @@ def _is_cache_guard(s: ast.stmt, param: str) -> bool:
     return len(calls) == 1 and len(calls[0].args) == 1 and src(calls[0].args[0]) == param
 
 
+def _keyok_flow(ctx, f: Func, p: str, estab: Dict[str, bool]):
+    """must-fact 'the cached point self.x equals parameter p' at each node of method f"""
+    from ..flow import forward
+    cfg = ctx.cfg(f)
+
+    def transfer(n, st):
+        if st:
+            # a write of self.x that is not a re-key to p would break the fact
+            for k, v, how in node_defs(n):
+                if k == "self.x":
+                    return False
+            return True
+        for c in node_calls(n):
+            d = dotted(c.func) or ""
+            if d.startswith("self.") and len(c.args) == 1 and src(c.args[0]) == p:
+                m = d[5:]
+                if m == "update_x" or estab.get(m):
+                    return True
+        return False
+
+    def refine(n, lab, st):
+        if n.kind == "test" and lab is True and isinstance(n.ast, ast.Call) and dotted(n.ast.func) == "np.array_equal" \
+                and len(n.ast.args) == 2 and not n.ast.keywords and {src(n.ast.args[0]), src(n.ast.args[1])} == {p, "self.x"}:
+            return True
+        return st
+    IN, OUT = forward(cfg, False, transfer, lambda a, b: a and b, refine, follow_exc=False)
+    return cfg, IN, OUT
+
+
 @rule("SF1", min_instances=3)
 def rule_sf1(ctx: Ctx) -> List[Ob]:
-    """every public accessor compares its argument with the cached point by an exact array
-    comparison, re-keys the cache on mismatch, and that guard dominates every use of the cached
-    value and every update call"""
+    """every public accessor makes the cached point equal to its argument (exact array comparison, re-key on
+    mismatch -- directly or through a helper method that does so on all its paths) before it touches the
+    cached value: the fact 'self.x == x' holds at every update call and at every return"""
     ms = _methods(ctx)
     obs: List[Ob] = []
+    # helper methods that establish the fact for their single argument on every path to their exit
+    estab: Dict[str, bool] = {}
+    for name, f in ms.items():
+        ps = [x for x in f.params if x != "self"]
+        if len(ps) != 1 or name in ACCESSORS or name == "update_x":
+            continue
+        cfg, IN, OUT = _keyok_flow(ctx, f, ps[0], {})
+        exits = [n for n, lab in cfg.pred[cfg.exit]]
+        estab[name] = bool(exits) and all(OUT.get(n, False) for n in exits)
     for a in ACCESSORS:
         f = ms[a]
         p = [x for x in f.params if x != "self"]
         need(len(p) == 1, f"ScalarFunction.{a}: expected one argument")
-        cfg = ctx.cfg(f)
-        guards = [s for s in f.node.body if _is_cache_guard(s, p[0])]
-        if len(guards) != 1:
-            obs.append(ob("SF1", "accessor guards the cache with an exact comparison", f, f.node, False,
-                          "no statement `if not np.array_equal(x, self.x): self.update_x(x)` at the top level of the accessor: "
-                          "a value cached for another point can be served", construct=f"{a}: cache guard"))
-            continue
-        gtest = [n for n in cfg.nodes if n.kind == "test" and n.owner is guards[0]][0]
-        users = [n for n in cfg.nodes if n is not gtest and (
-            any(dotted(c.func) in ("self._update_fun", "self._update_grad") for c in node_calls(n)) or
-            (n.kind == "stmt" and isinstance(n.ast, ast.Return)))]
-        late = [n for n in users if not cfg.dominates(gtest, n)]
-        obs.append(ob("SF1", "accessor guards the cache with an exact comparison", f, guards[0], not late,
-                      f"guard dominates {len(users)} update calls / returns" if not late else
-                      f"line {late[0].line} can run before the guard", construct=f"{a}: {short(guards[0].test)}"))
+        cfg, IN, OUT = _keyok_flow(ctx, f, p[0], estab)
+        users = [n for n in cfg.nodes if any(dotted(c.func) in ("self._update_fun", "self._update_grad") for c in node_calls(n)) or
+                 (n.kind == "stmt" and isinstance(n.ast, ast.Return))]
+        late = [n for n in users if not IN.get(n, False)]
+        obs.append(ob("SF1", "accessor re-keys the cache to its argument before using it", f, f.node, bool(users) and not late,
+                      f"'self.x == {p[0]}' holds at all {len(users)} update calls / returns" if users and not late else
+                      (f"line {late[0].line}: the cached value can be used / returned while self.x is not known to equal the argument: "
+                       "a value cached for another point can be served" if late else "no update call found"),
+                      construct=f"{a}: exact-comparison guard"))
     return obs
 
 
@@ -120,14 +152,25 @@ def rule_sf3(ctx: Ctx) -> List[Ob]:
     for meth, flag, impl in (("_update_fun", "self.f_updated", "self._update_fun_impl"),
                              ("_update_grad", "self.g_updated", "self._update_grad_impl")):
         f = ms[meth]
-        okk = False
-        body = [s for s in f.node.body if not (isinstance(s, ast.Expr) and isinstance(s.value, ast.Constant))]
-        if len(body) == 1 and isinstance(body[0], ast.If) and src(body[0].test) == f"not {flag}" and not body[0].orelse:
-            b = body[0].body
-            okk = len(b) == 2 and isinstance(b[0], ast.Expr) and isinstance(b[0].value, ast.Call) and dotted(b[0].value.func) == impl \
-                and isinstance(b[1], ast.Assign) and src(b[1].targets[0]) == flag and isinstance(b[1].value, ast.Constant) and b[1].value.value is True
-        obs.append(ob("SF3", f"{flag} is set only right after {impl}() under `if not {flag.split('.')[1]}`", f, f.node, okk,
-                      f"body: {short(body[0], 90) if body else 'empty'}", construct=f"{meth}: if not flag: impl(); flag = True"))
+        cfg = ctx.cfg(f)
+        impls = [n for n in cfg.nodes if any(dotted(c.func) == impl for c in node_calls(n))]
+        sets = [n for n in cfg.nodes if any(k == flag for k, v, how in node_defs(n))]
+        flag_tests = [n for n in cfg.nodes if n.kind == "test" and src(n.ast) == flag]
+        okk, why = len(impls) == 1 and len(sets) == 1 and bool(flag_tests), ""
+        if okk:
+            # (i) the evaluation runs only when the flag is False
+            reach = cfg.reachable(cfg.entry, follow_exc=False, edge_ok=lambda a, b, lab: not (a in flag_tests and lab is False))
+            guarded = impls[0] not in reach
+            # (ii) the flag is set after the evaluation, (iii) on every path from it
+            after = cfg.dominates(impls[0], sets[0]) and isinstance(sets[0].ast, ast.Assign) and \
+                isinstance(sets[0].ast.value, ast.Constant) and sets[0].ast.value.value is True
+            always = not cfg.exists_path_avoiding(impls[0], cfg.exit, lambda m: m is sets[0])
+            okk = guarded and after and always
+            why = f"evaluation only when the flag is False: {guarded}; flag set to True after it: {after}; on every path: {always}"
+        else:
+            why = f"{len(impls)} evaluation call(s), {len(sets)} flag write(s), {len(flag_tests)} flag test(s)"
+        obs.append(ob("SF3", f"{flag} is set only right after {impl}() and the evaluation is skipped when it is set", f, f.node, okk, why,
+                      construct=f"{meth}: evaluate-once typestate"))
     # all writers of the flags = True
     for q, f in sorted(ctx.repo.funcs.items()):
         if not q.startswith(CLS + "."):
@@ -171,7 +214,8 @@ def rule_sf4(ctx: Ctx) -> List[Ob]:
         rets = [r for r in walk_no_nested(f.node) if isinstance(r, ast.Return)]
         ok = len(rets) == 1
         if ok:
-            v = rets[0].value
+            from ..flow import Expander
+            v = Expander(ctx, f).expand_at(rets[0], rets[0].value)
             parts = list(v.elts) if isinstance(v, ast.Tuple) else [v]
             ok = len(parts) == len(want[a]) and all(scaled(p, w) for p, w in zip(parts, want[a]))
         obs.append(ob("SF4", "accessor returns cache * scaling_factor", f, rets[0] if rets else f.node, ok,
